@@ -994,6 +994,25 @@ func (m *Model) ruleCAS(r *Results) {
 						}
 					}
 				}
+				// conditions that were computed ahead of their branch (`isInsert := addOnly || cas == 0`
+				// ... `case isInsert:`) are evaluated under the assumption each cut stands for
+				for _, iff := range allIfs(K) {
+					for _, ca := range []struct {
+						c   *cut
+						asm casAssume
+					}{{c, casAssume{pZero: 2, addOnly: 2}}, {c0, casAssume{pZero: 1}}, {cA, casAssume{addOnly: 1, otherBits: 2}}} {
+						if _, isBin := stripConv(iff.Cond).(*ssa.BinOp); isBin {
+							continue // compared in place: classified above
+						}
+						if b, k := m.boolUnder(iff.Cond, fr, isP, ca.asm, 0); k {
+							dead := iff.Block().Succs[0]
+							if b {
+								dead = iff.Block().Succs[1]
+							}
+							ca.c.cutEdge(iff.Block(), dead)
+						}
+					}
+				}
 				// sink 1: SQL conjunct cas = ?p bound to P, evaluated on the cut CFG
 				guardedBySQL := false
 				if wp.site.Fn == K {
@@ -3123,7 +3142,70 @@ func (m *Model) bodyRetriesOnlyOnCasError(lp *rmwLoop, w ssa.CallInstruction, er
 		}
 		c.cutEdge(iff.Block(), t)
 	}
-	if !found {
+	// the "go round again" result may also be computed as a value (`return 0, isMismatch && cas == 0,
+	// err`): true only where the CAS test on the write's error came out true
+	isCasValue := func(v ssa.Value) bool {
+		v = stripConv(v)
+		if ex, ok := v.(*ssa.Extract); ok && ex.Index == 1 {
+			if ta, ok := ex.Tuple.(*ssa.TypeAssert); ok && flowsThroughPhi(errV, ta.X) && isNamed(ta.AssertedType, sgbucketPath, "CasMismatchErr") {
+				return true
+			}
+		}
+		if call, ok := v.(*ssa.Call); ok && len(call.Common().Args) > 0 {
+			f := call.Common().StaticCallee()
+			if f != nil && f.Pkg != nil && f.Pkg.Pkg.Path() == "errors" && (f.Name() == "Is" || f.Name() == "As") && flowsThroughPhi(errV, call.Common().Args[0]) {
+				return true
+			}
+			if f != nil && m.isCasErrorPredicate(f) && flowsThroughPhi(errV, call.Common().Args[0]) {
+				return true
+			}
+		}
+		return false
+	}
+	var impliesCas func(v ssa.Value, d int) bool
+	impliesCas = func(v ssa.Value, d int) bool {
+		v = stripConv(v)
+		if d > 4 {
+			return false
+		}
+		if isCasValue(v) {
+			return true
+		}
+		phi, ok := v.(*ssa.Phi)
+		if !ok {
+			return false
+		}
+		for i, e := range phi.Edges {
+			if k, ok := stripConv(e).(*ssa.Const); ok && k.Value != nil && !constant.BoolVal(k.Value) {
+				continue
+			}
+			if impliesCas(e, d+1) {
+				continue
+			}
+			// the second operand of `casTest && x`: its block is entered only over the test's true edge
+			pred := phi.Block().Preds[i]
+			under := false
+			for _, iff := range allIfs(fn) {
+				if isCasValue(iff.Cond) {
+					t := iff.Block().Succs[0]
+					if t == pred || t.Dominates(pred) {
+						under = true
+					}
+				}
+			}
+			if !under {
+				return false
+			}
+		}
+		return true
+	}
+	valueForm := false
+	for _, ret := range returnsOf(fn) {
+		if lp.Retry < len(ret.Results) && impliesCas(ret.Results[lp.Retry], 0) {
+			valueForm = true
+		}
+	}
+	if !found && !valueForm {
 		return false
 	}
 	// with the legitimate retry edges cut, no "retry = true" return may be reachable from the write
@@ -3135,6 +3217,9 @@ func (m *Model) bodyRetriesOnlyOnCasError(lp *rmwLoop, w ssa.CallInstruction, er
 		}
 		v := stripConv(ret.Results[lp.Retry])
 		if k, ok := v.(*ssa.Const); ok && k.Value != nil && !constant.BoolVal(k.Value) {
+			continue
+		}
+		if impliesCas(v, 0) {
 			continue
 		}
 		if ret.Block() == w.Block() && indexIn(w.Block(), w) > indexIn(ret.Block(), ret) {
